@@ -35,6 +35,7 @@ pub struct C12;
 /// gas-withdrawal point of a cycle is chosen by the compiler), explicit implicit precedence with
 /// unlisted implicits, generic traits with several instantiations, closures.
 const TEMPLATES: &[&str] = &[
+    "#[implicit_precedence(core::pedersen::Pedersen, core::RangeCheck, core::gas::GasBuiltin)]\nfn ping(n: u32, acc: felt252) -> felt252 {\n    if n == 0 {\n        acc\n    } else {\n        pong(n - 1, core::pedersen::pedersen(acc, 1))\n    }\n}\nfn pong(n: u32, acc: felt252) -> felt252 {\n    if n == 0 {\n        acc\n    } else if n % 2 == 0 {\n        pong(n - 1, acc + 1)\n    } else {\n        ping(n - 1, core::pedersen::pedersen(acc, 2))\n    }\n}\nfn main() -> felt252 {\n    ping(10, 0)\n}\n",
     "fn f(n: felt252) -> felt252 {\n    if n == 0 {\n        1\n    } else {\n        g(n - 1) + 1\n    }\n}\nfn g(n: felt252) -> felt252 {\n    if n == 0 {\n        2\n    } else {\n        f(n - 1) * 2\n    }\n}\n",
     "fn a(n: u32) -> u32 {\n    if n == 0 {\n        0\n    } else {\n        b(n - 1) + c(n - 1)\n    }\n}\nfn b(n: u32) -> u32 {\n    if n == 0 {\n        1\n    } else {\n        c(n - 1) + 1\n    }\n}\nfn c(n: u32) -> u32 {\n    if n == 0 {\n        2\n    } else {\n        a(n - 1) + 2\n    }\n}\nfn main() -> u32 {\n    c(5) + b(4) + a(3)\n}\n",
     "use core::dict::{Felt252Dict, Felt252DictTrait};\n#[implicit_precedence(core::RangeCheck)]\nfn main(x: felt252) -> felt252 {\n    hash_pair(x, 3) + dict_roundtrip(x) + small(x)\n}\nfn hash_pair(a: felt252, b: felt252) -> felt252 {\n    core::pedersen::pedersen(a, b)\n}\nfn dict_roundtrip(a: felt252) -> felt252 {\n    let mut d: Felt252Dict<felt252> = Default::default();\n    d.insert(a, 5);\n    d.get(a)\n}\nfn small(a: felt252) -> felt252 {\n    let x: u8 = a.try_into().unwrap_or(3);\n    (x / 2).into()\n}\n",
@@ -287,7 +288,30 @@ pub fn judge_plain(source: &str, settings: &str, h: &History, snippets: &[execs:
     if let Some((sig, what)) = compare(&o0, &o1) {
         // Root-cause class of the one known finding: in a call cycle through several functions the
         // compiler picks the cycle's representative (hence the gas-withdrawal point) by interned id.
-        if cyc && sig != "diagnostics-differs" {
+        // The known defect moves `withdraw_gas` between the functions of the cycle; it does not change any
+        // function signature. A difference in the signatures is therefore not that finding.
+        let sigs = |t: &str| -> Vec<String> {
+            let mut v: Vec<String> = t
+                .lines()
+                .filter_map(|l| {
+                    // Function declarations: `name@F12(params) -> (rets);` (the entry label is dropped).
+                    if !(l.ends_with(");") && l.contains(") -> (")) {
+                        return None;
+                    }
+                    let a = l.find('@')?;
+                    let b = a + l[a..].find('(')?;
+                    let label = &l[a + 1..b];
+                    let label = label.strip_prefix('F').unwrap_or(label);
+                    if label.is_empty() || !label.bytes().all(|c| c.is_ascii_digit()) {
+                        return None;
+                    }
+                    Some(format!("{}{}", &l[..a], &l[b..]))
+                })
+                .collect();
+            v.sort();
+            v
+        };
+        if cyc && sig != "diagnostics-differs" && sigs(&o0.artifact) == sigs(&o1.artifact) {
             return Err((format!("{sig}:program-with-multi-function-call-cycle"), what));
         }
         return Err((sig, what));
@@ -395,7 +419,7 @@ impl Prop for C12 {
         "C12"
     }
     fn rule(&self) -> String {
-        "Projects: generated typed programs, e2e snippets, example files and five hand-written templates (mutual recursion, \
+        "Projects: generated typed programs, e2e snippets, example files and six hand-written templates (mutual recursion, mutual recursion with one-sided implicit precedence, \
          #[implicit_precedence] with unlisted implicits, generic traits with several instantiations, closures) - unmutated or with 1-2 token mutations \
          so that the diagnostics list is non-empty (warnings / errors) - and, in one case of eight, three contracts \
          of the Starknet test crate (crates/cairo-lang-starknet/cairo_level_tests). Each project is compiled in two \
@@ -441,6 +465,7 @@ impl Prop for C12 {
             }
             let (origin, mut source, settings) = if ch.chance(1, 5) {
                 let i = ch.below(TEMPLATES.len());
+                cc.stats().count("template_cases");
                 (format!("template#{i}"), TEMPLATES[i].to_string(), cairo::SETTINGS_2024_07)
             } else if snippets.is_empty() || ch.chance(1, 2) {
                 let c = execs::pick_case(ch, &[], 10, 0);
